@@ -1,0 +1,36 @@
+//go:build verif
+
+package count
+
+// Contracts checked by /verif (vcgo). Comment-only: no executable code.
+// C18: the reference count of a project method equals the number of recorded call sites that resolve to it;
+// methods never called (and names that are not project methods) are absent.
+
+//@ spec rec DeclD(ds []core_domain.CodeDataStruct, n int, s string) bool := n <= 0 ? false : (DeclD(ds, n - 1, s) || DeclIn(ds[n - 1], len(ds[n - 1].Functions), s))
+
+//@ spec rec SitesC(cs []core_domain.CodeCall, n int, s string) int := n <= 0 ? 0 : SitesC(cs, n - 1, s) + (CallFull(cs[n - 1]) == s ? 1 : 0)
+//@ axiom SitesC_nonneg: forall cs []core_domain.CodeCall, n int, s string :: {SitesC(cs, n, s)} n >= 0 ==> SitesC(cs, n, s) >= 0
+
+//@ spec rec SitesF(fs []core_domain.CodeFunction, n int, s string) int := n <= 0 ? 0 : SitesF(fs, n - 1, s) + SitesC(fs[n - 1].FunctionCalls, len(fs[n - 1].FunctionCalls), s)
+//@ axiom SitesF_nonneg: forall fs []core_domain.CodeFunction, n int, s string :: {SitesF(fs, n, s)} n >= 0 ==> SitesF(fs, n, s) >= 0
+
+//@ spec rec SitesD(ds []core_domain.CodeDataStruct, n int, s string) int := n <= 0 ? 0 : SitesD(ds, n - 1, s) + SitesF(ds[n - 1].Functions, len(ds[n - 1].Functions), s)
+//@ axiom SitesD_nonneg: forall ds []core_domain.CodeDataStruct, n int, s string :: {SitesD(ds, n, s)} n >= 0 ==> SitesD(ds, n, s) >= 0
+
+//@ spec Refs(ds []core_domain.CodeDataStruct, s string) int := DeclD(ds, len(ds), s) ? SitesD(ds, len(ds), s) : 0
+
+//@ func BuildCallMap
+//@ ensures forall s string :: {result[s]} result[s] == Refs(parserDeps, s)
+//@ ensures forall s string :: {s in result} (s in result) <==> Refs(parserDeps, s) > 0
+//@ loop 1 invariant projectMethods != nil
+//@ loop 1 invariant forall s string :: {DeclD(parserDeps, #i, s)} {s in projectMethods} (s in projectMethods) <==> DeclD(parserDeps, #i, s)
+//@ loop 2 invariant callMap != nil
+//@ loop 2 invariant forall s string :: {callMap[s]} {SitesD(parserDeps, #i, s)} callMap[s] == (DeclD(parserDeps, len(parserDeps), s) ? SitesD(parserDeps, #i, s) : 0)
+//@ loop 2 invariant forall s string :: {s in callMap} (s in callMap) <==> callMap[s] > 0
+//@ loop 3 invariant callMap != nil
+//@ loop 3 invariant forall s string :: {callMap[s]} {SitesF(clz.Functions, #i, s)} callMap[s] == (DeclD(parserDeps, len(parserDeps), s) ? SitesD(parserDeps, #i2, s) + SitesF(clz.Functions, #i, s) : 0)
+//@ loop 3 invariant forall s string :: {s in callMap} (s in callMap) <==> callMap[s] > 0
+//@ loop 4 invariant callMap != nil
+//@ loop 4 invariant forall s string :: {callMap[s]} {SitesC(method.FunctionCalls, #i, s)} callMap[s] == (DeclD(parserDeps, len(parserDeps), s) ?
+//@     SitesD(parserDeps, #i2, s) + SitesF(clz.Functions, #i3, s) + SitesC(method.FunctionCalls, #i, s) : 0)
+//@ loop 4 invariant forall s string :: {s in callMap} (s in callMap) <==> callMap[s] > 0
